@@ -370,6 +370,47 @@ def side_assumptions(extra=()):
     return A
 
 
+HINTS = True
+HINTED_TIMEOUT = 20
+
+
+def search_counterexample(diff, assumptions=(), cand_env=None, seed=0, n_random=40):
+    """Evaluate `diff` at the solver's model (if any) and at random exact-rational points that satisfy the
+    assumptions and side facts; returns (kind, witness) for a robustly non-zero value, else None."""
+    rng = random.Random(seed)
+    tries = []
+    if cand_env:
+        tries.append(("solver-model", {k: v for k, v in cand_env.items() if v is not None}))
+    for i in range(n_random):
+        tries.append(("random-point", random_env([diff] + list(assumptions), rng, scale=1 + i % 4)))
+    for kind, env0 in tries:
+        base = {k: v for k, v in env0.items() if not k.startswith(("rad!", "q!"))}
+        for n, sort in tm.variables([diff] + list(assumptions) + list(ST.nonzero)):
+            if n not in base and not n.startswith(("rad!", "q!", "const!")):
+                base[n] = Fraction(rng.randint(-5, 5), rng.randint(1, 3)) if sort == "Real" else False
+        env = complete_env(
+            base, [diff] + list(assumptions) + list(ST.facts) + list(ST.nonzero)
+        )
+        if env is None:
+            continue
+        try:
+            ok = all(tm.evaluate(list(assumptions), env, UF_FLOAT)) if assumptions else True
+            nz = tm.evaluate(list(ST.nonzero), env, UF_FLOAT) if ST.nonzero else []
+            if not ok or any(x == 0 for x in nz):
+                continue
+            val = tm.evaluate([diff], env, UF_FLOAT)[0]
+            parts = diff.args if diff.op == "add" else (diff,)
+            scale = sum(abs(float(v)) for v in tm.evaluate(list(parts), env, UF_FLOAT))
+        except (ValueError, ZeroDivisionError, OverflowError, KeyError):
+            continue
+        exact = isinstance(val, (int, Fraction))
+        if (exact and val != 0) or (not exact and abs(float(val)) > 1e-6 * (scale + 1e-300)
+                                    and math.isfinite(float(val)) and math.isfinite(scale)):
+            wit = {k: (str(v) if isinstance(v, Fraction) else v) for k, v in env.items()}
+            return kind, {"env": wit, "diff_value": str(val)}
+    return None
+
+
 def prove_zero(diff: tm.T, assumptions=(), timeout=20, lemma_instances=(), seed=0, label=""):
     """Decide `assumptions => diff == 0`.  Returns Result."""
     t0 = time.time()
@@ -425,40 +466,10 @@ def prove_zero(diff: tm.T, assumptions=(), timeout=20, lemma_instances=(), seed=
             _, outm = run_z3(tm.to_smt2(A + [goal]), timeout, want_model=True)
             cand_env = parse_model(outm)
     # candidate search: solver model first, then random exact points
-    rng = random.Random(seed)
-    tries = []
-    if cand_env:
-        tries.append(("solver-model", {k: v for k, v in cand_env.items() if v is not None}))
-    for i in range(40):
-        tries.append(("random-point", random_env([diff] + list(assumptions), rng, scale=1 + i % 4)))
-    for kind, env0 in tries:
-        base = {k: v for k, v in env0.items() if not k.startswith(("rad!", "q!"))}
-        for n, sort in tm.variables([diff] + list(assumptions) + list(ST.nonzero)):
-            if n not in base and not n.startswith(("rad!", "q!", "const!")):
-                base[n] = Fraction(rng.randint(-5, 5), rng.randint(1, 3)) if sort == "Real" else False
-        env = complete_env(
-            base, [diff] + list(assumptions) + list(ST.facts) + list(ST.nonzero)
-        )
-        if env is None:
-            continue
-        try:
-            ok = all(tm.evaluate(list(assumptions), env, UF_FLOAT)) if assumptions else True
-            nz = tm.evaluate(list(ST.nonzero), env, UF_FLOAT) if ST.nonzero else []
-            if not ok or any(x == 0 for x in nz):
-                continue
-            val = tm.evaluate([diff], env, UF_FLOAT)[0]
-            parts = diff.args if diff.op == "add" else (diff,)
-            scale = sum(abs(float(v)) for v in tm.evaluate(list(parts), env, UF_FLOAT))
-        except (ValueError, ZeroDivisionError, OverflowError, KeyError):
-            continue
-        exact = isinstance(val, (int, Fraction))
-        if (exact and val != 0) or (not exact and abs(float(val)) > 1e-6 * (scale + 1e-300)
-                                    and math.isfinite(float(val)) and math.isfinite(scale)):
-            wit = {k: (str(v) if isinstance(v, Fraction) else v) for k, v in env.items()}
-            return Result(
-                "violated", kind, witness={"env": wit, "diff_value": str(val)},
-                query_s=time.time() - t0, size=sz,
-            )
+    hit = search_counterexample(diff, assumptions, cand_env, seed, 40)
+    if hit is not None:
+        kind, wit = hit
+        return Result("violated", kind, witness=wit, query_s=time.time() - t0, size=sz)
     return Result("inconclusive", None, detail=f"z3:{v}", query_s=time.time() - t0, size=sz)
 
 
@@ -525,6 +536,17 @@ def prove_all_zero(diffs, assumptions=(), timeout=20, lemma_instances=(), seed=0
         if v == "unsat":
             return Result("proved", 0, query_s=time.time() - t0, size=sz)
         return Result("inconclusive", None, detail="trivial query not unsat")
+    # A candidate point found by cheap random evaluation does not decide anything, but it bounds the time spent
+    # on proof attempts that are then unlikely to succeed (a proof still pre-empts the candidate: float noise
+    # cannot turn a provable identity into a violation).
+    hinted = False
+    if HINTS:
+        try:
+            hinted = any(search_counterexample(d, assumptions, None, seed + 7, 2) is not None for d in nz[:8])
+        except Exception:  # noqa: BLE001
+            hinted = False
+    if hinted:
+        timeout = min(timeout, HINTED_TIMEOUT)
     if ST.squares or lemma_instances:
         rts = []
         for d in nz:
